@@ -5,6 +5,7 @@ import (
 	"go/token"
 	"go/types"
 	"regexp/syntax"
+	"strconv"
 	"strings"
 
 	"golang.org/x/tools/go/ssa"
@@ -54,6 +55,12 @@ func registerTime() {
 	})
 	reg("(time.Time).String", func(x *Exec, g *G, a []Value) Value { return &Str{Opaque: true} })
 	reg("time.Parse", func(x *Exec, g *G, a []Value) Value {
+		// a string produced by the Format model above denotes exactly that instant
+		if s, ok := a[1].(*Str); ok && s.IsConc() && len(s.S) > 1 && s.S[0] == 'T' {
+			if ns, err := strconv.ParseUint(s.S[1:], 10, 64); err == nil {
+				return TupleV{x.timeValue(MkBV(64, ns)), Iface{}}
+			}
+		}
 		// contract: returns an arbitrary instant or an error (nondeterministic)
 		fail := x.inputEnv("time.Parse.fails", "bool", SBool)
 		ns := x.inputEnv("time.Parse.ns", "i64", SBV64)
@@ -520,4 +527,3 @@ func sortInts(a []int) {
 		}
 	}
 }
-
